@@ -1,7 +1,7 @@
 """C17 Command line: no crash on any option vector; exit 0 iff the operation succeeded."""
 from . import cli_rules, b64_rules
 LEVEL = 'other'
-RULES = ('R12.a', 'R17.a', 'R17.b', 'R17.c', 'R17.d', 'R17.e', 'R17.f', 'R17.g', 'R15.f', 'R12.d', 'R02.f', 'R16.a', 'R16.b', 'R16.v', 'R16.u', 'R16.l')
+RULES = ('R12.a', 'R17.a', 'R17.b', 'R17.c', 'R17.d', 'R17.e', 'R17.f', 'R17.g', 'R15.f', 'R12.d', 'R02.f', 'R16.a', 'R16.b', 'R16.v', 'R16.u', 'R16.l', 'R17.t', 'R17.v')
 
 
 def run(prog, rec, tier):
